@@ -62,33 +62,33 @@ theorem mem_foldl_insertNew (xs : List St) : ∀ (acc : List St) (t : St),
 
 theorem closure_sound {v : Variant} {c : Ctx} (P : St → Prop)
     (hP : ∀ s t, P s → TauStep v c s t → P t) :
-    ∀ (n : Nat) (acc todo : List St), (∀ t ∈ acc, P t) → (∀ t ∈ todo, P t) →
-      ∀ t ∈ closure v c n acc todo, P t := by
+    ∀ (n : Nat) (seen : Seen) (acc todo : List St), (∀ t ∈ acc, P t) → (∀ t ∈ todo, P t) →
+      ∀ t ∈ closure v c n seen acc todo, P t := by
   intro n
   induction n with
-  | zero => intro acc todo ha _ t ht; simp only [closure] at ht; exact ha t ht
+  | zero => intro seen acc todo ha _ t ht; simp only [closure] at ht; exact ha t ht
   | succ n ih =>
-    intro acc todo ha htodo t ht
+    intro seen acc todo ha htodo t ht
     cases todo with
     | nil => simp only [closure] at ht; exact ha t ht
     | cons s todo =>
       simp only [closure] at ht
       have hs : P s := htodo s (by simp)
-      have hnew : ∀ u ∈ ((tauSucc v c s).filter fun t => !(acc.contains t)).foldl insertNew [],
+      have hnew : ∀ u ∈ ((tauSucc v c s).filter fun t => !(seen.contains t)).foldl insertNew [],
           P u := by
         intro u hu
         rcases mem_foldl_insertNew _ [] u hu with h | h
         · simp at h
         · exact hP s u hs (tauSucc_sound (List.mem_filter.mp h).1)
-      apply ih _ _ _ _ t ht
+      apply ih _ _ _ _ _ t ht
       · intro u hu
         rcases List.mem_append.mp hu with h | h
+        · exact hnew u h
         · exact ha u h
-        · exact hnew u h
       · intro u hu
         rcases List.mem_append.mp hu with h | h
-        · exact htodo u (by simp [h])
         · exact hnew u h
+        · exact htodo u (by simp [h])
 
 theorem close_sound {v : Variant} {m : Sim} {t : St} (ht : t ∈ (close v m).states) :
     ∃ s ∈ m.states, TauStar v m.toCtx s t := by
@@ -99,7 +99,7 @@ theorem close_sound {v : Variant} {m : Sim} {t : St} (ht : t ∈ (close v m).sta
     · simp at h
     · exact ⟨u, h, .refl u⟩
   exact closure_sound (fun u => ∃ s ∈ m.states, TauStar v m.toCtx s u)
-    (fun s t ⟨s0, h0, hs⟩ hst => ⟨s0, h0, .tail hs hst⟩) _ _ _ hinit hinit t ht
+    (fun s t ⟨s0, h0, hs⟩ hst => ⟨s0, h0, .tail hs hst⟩) _ _ _ _ hinit hinit t ht
 
 theorem close_ctx (v : Variant) (m : Sim) : (close v m).toCtx = m.toCtx := rfl
 
@@ -180,16 +180,16 @@ theorem traceRun_reach {v : Variant} {c : Ctx} {a s t : St} {es : List Ev} (h0 :
   | nil => exact h0
   | cons hev htau _ ih => exact ih (tauStar_reach (evState_reach h0 hev) htau)
 
-theorem closure_superset {v : Variant} {c : Ctx} : ∀ (n : Nat) (acc todo : List St) (t : St),
-    t ∈ acc → t ∈ closure v c n acc todo := by
+theorem closure_superset {v : Variant} {c : Ctx} : ∀ (n : Nat) (seen : Seen) (acc todo : List St) (t : St),
+    t ∈ acc → t ∈ closure v c n seen acc todo := by
   intro n
   induction n with
-  | zero => intro acc todo t h; simpa [closure] using h
+  | zero => intro seen acc todo t h; simpa [closure] using h
   | succ n ih =>
-    intro acc todo t h
+    intro seen acc todo t h
     cases todo with
     | nil => simpa [closure] using h
-    | cons s todo => simp only [closure]; exact ih _ _ t (List.mem_append.mpr (Or.inl h))
+    | cons s todo => simp only [closure]; exact ih _ _ _ t (List.mem_append.mpr (Or.inr h))
 
 theorem acceptFrom_nonempty {v : Variant} : ∀ (es : List Ev) (m : Sim) (k : Nat) (mf : Sim),
     acceptFrom v m k es = (none, mf) → m.states ≠ [] → mf.states ≠ [] := by
